@@ -6,4 +6,4 @@ print('| seeded change | breaks | caught by | needs to manifest | history |')
 print('|---|---|---|---|---|')
 for name in sorted(os.listdir(root)):
     m = json.load(open(os.path.join(root, name, 'meta.json')))
-    print('| `%s` | %s | %s | %s | %s |' % (name, m['breaks_property'], ', '.join(m['caught_by']) or '- (obsolete)', m['needs_to_manifest'], m['history']))
+    print('| `%s` | %s | %s | %s | %s |' % (name, m['breaks_property'], ', '.join(m['caught_by']) or ('- (not caught)' if m.get('not_caught') else '- (obsolete)'), m['needs_to_manifest'], m['history']))
